@@ -168,8 +168,9 @@ Proof.
            assert (Es : same_course v = opt_is (pc_instr d) ci) by (unfold same_course; rewrite Ev, Eas'; reflexivity).
            assert (Eh : has_choices v = match pc_choices d with [] => false | _ => true end) by (unfold has_choices; rewrite Ev; reflexivity).
            unfold spec_quality. rewrite Fi, !filter_app, map_app, app_length. cbn [filter]. rewrite Es, Eh.
-           destruct (pc_instr d) as [c'|]; cbn [opt_is]; [destruct (Nat.eqb c' ci)|]; [destruct (pc_choices d)| |];
-             cbn [negb andb List.length app map fst snd]; rewrite ?Ev, ?Eas', ?app_nil_r; f_equal; try reflexivity; lia.
+           unfold rate_att.
+           destruct (pc_instr d) as [c'|]; cbn [opt_is]; [destruct (Nat.eqb c' ci)|]; destruct (pc_choices d) eqn:Ech;
+             cbn [negb andb List.length app map fst snd]; rewrite ?Ev, ?Eas', ?Ech, ?app_nil_r; f_equal; try reflexivity; lia.
         -- rewrite Fi, app_length. simpl. lia.
       * (* not ignored *)
         assert (Hig : ignored ign_a v = false).
